@@ -287,6 +287,7 @@ Section Done.
     | EStart, ROk => (s', [])
     | EStart, _ => (s', snd g)
     | EAbort, _ => (s', [])
+    | EAbortR, _ => (s', [])
     end.
   Definition grun (st0 : store) (evs : list event) : rstate * list nat :=
     fold_left gstep evs (mkr false [] st0, []).
@@ -303,7 +304,7 @@ Section Done.
   Lemma gstep_inv g e : all_accounted g -> all_accounted (gstep g e).
   Proof.
     destruct g as [s imp]. unfold all_accounted, gstep. cbn [fst snd]. intros Inv.
-    destruct e as [i b| |]; cbn [rstep].
+    destruct e as [i b| | |]; cbn [rstep].
     - destruct (active s) eqn:Ea; cbn [negb]; [|cbn [fst snd]; intros E; congruence].
       destruct (existsb (Nat.eqb i) (pend s)); cbn [negb]; [|cbn [fst snd]; rewrite Ea; exact Inv].
       destruct (nth_error digests i) as [d|]; [|cbn [fst snd]; rewrite Ea; exact Inv].
@@ -311,6 +312,7 @@ Section Done.
         try (rewrite Ea; exact Inv); try discriminate.
       intros _ j Hj. destruct (Inv eq_refl j Hj) as [Hp|Hi]; [|right; now right].
       destruct (rm_in i j _ Hp) as [->|Hr]; [right; now left|now left].
+    - cbn [fst snd active]. discriminate.
     - cbn [fst snd active]. discriminate.
     - destruct (active s) eqn:Ea; cbn [fst snd active pend]; [rewrite Ea; exact Inv|].
       intros _ j Hj. left. apply in_seq. lia.
@@ -366,7 +368,7 @@ Section History.
 
   Lemma hist_step s e : hist_inv s -> hist_inv (fst (rstep H Hd decode root digests s e)) \/ collision Hd.
   Proof.
-    intros (Ss & Is & Ip). destruct e as [i b| |]; cbn [rstep].
+    intros (Ss & Is & Ip). destruct e as [i b| | |]; cbn [rstep].
     - destruct (active s) eqn:Ea; cbn [negb]; [|left; cbn [fst]; repeat split; auto; congruence].
       destruct (existsb (Nat.eqb i) (pend s)); cbn [negb]; [|left; cbn [fst]; repeat split; auto].
       destruct (nth_error digests i) as [d|] eqn:Ed; [|left; cbn [fst]; repeat split; auto].
@@ -388,6 +390,7 @@ Section History.
           right. rewrite Eci in Hj. injection Hj as <-. intros e He. apply I1. now right.
         * right. intros e He. apply I1. left. auto.
     - left. cbn [fst db active]. split; [exact I|]. split; [intros e []|discriminate].
+    - left. cbn [fst db active]. split; [exact Ss|]. split; [exact Is|discriminate].
     - destruct (active s) eqn:Ea; cbn [fst]; left; [repeat split; auto|].
       cbn [db active pend]. repeat split; auto. intros _ j c Hj. left. apply in_seq.
       unfold digests. rewrite map_length. split; [lia|]. cbn. apply nth_error_Some. congruence.
@@ -448,3 +451,78 @@ Section History.
     left. split; [apply Hi|]. intros i b s' Hstep Hdone. eapply hist_done; eauto.
   Qed.
 End History.
+
+(* ------------------------------------------------------------------ *)
+(* rejected deliveries are no-ops; finalize                             *)
+(* ------------------------------------------------------------------ *)
+Section Rejected.
+  Variable H Hd : bytes -> bytes.
+  Variable decode : bytes -> option ptree.
+  Variable root : bytes.
+  Variable digests : list bytes.
+
+  Definition rejected (r : rres) : Prop :=
+    r = RCorrupted \/ r = RNotPending \/ r = RNoRestore \/ r = RInProgress.
+
+  (* a delivery answered with ErrChunkCorrupted, ErrChunkAlreadyRestored,
+     ErrNoRestoreInProgress (or a StartRestore answered with
+     ErrRestoreAlreadyInProgress) leaves restorer and database exactly as they were *)
+  Theorem rejected_is_noop_l s e :
+    rejected (snd (rstep H Hd decode root digests s e)) -> fst (rstep H Hd decode root digests s e) = s.
+  Proof.
+    unfold rejected. destruct e as [i b| | |]; cbn [rstep].
+    - destruct (negb (active s)); [reflexivity|].
+      destruct (negb (existsb (Nat.eqb i) (pend s))); [reflexivity|].
+      destruct (nth_error digests i); [|reflexivity].
+      destruct (restore_chunk H Hd decode root b0 b (db s)) as [[] st']; cbn [fst snd]; try reflexivity;
+        intros [?|[?|[?|?]]]; discriminate.
+    - cbn. intros [?|[?|[?|?]]]; discriminate.
+    - cbn. intros [?|[?|[?|?]]]; discriminate.
+    - destruct (active s); cbn; [reflexivity|]. intros [?|[?|[?|?]]]; discriminate.
+  Qed.
+
+  (* a failed proof verification aborts the restorer and imports nothing *)
+  Theorem proof_failure_aborts_l s i b :
+    snd (rstep H Hd decode root digests s (EChunk i b)) = RProofFail ->
+    fst (rstep H Hd decode root digests s (EChunk i b)) = mkr false [] (db s).
+  Proof.
+    cbn [rstep]. destruct (negb (active s)); [discriminate|].
+    destruct (negb (existsb (Nat.eqb i) (pend s))); [discriminate|].
+    destruct (nth_error digests i); [|discriminate].
+    destruct (restore_chunk H Hd decode root b0 b (db s)) as [[] st']; cbn [fst snd]; try discriminate. reflexivity.
+  Qed.
+
+  Lemma rrun_app s e1 e2 :
+    rrun H Hd decode root digests s (e1 ++ e2) = rrun H Hd decode root digests (rrun H Hd decode root digests s e1) e2.
+  Proof. unfold rrun. apply fold_left_app. Qed.
+
+  (* ... so a history with a rejected delivery removed ends in the same state *)
+  Theorem history_without_rejected_l s e1 e e2 :
+    rejected (snd (rstep H Hd decode root digests (rrun H Hd decode root digests s e1) e)) ->
+    rrun H Hd decode root digests s (e1 ++ e :: e2) = rrun H Hd decode root digests s (e1 ++ e2).
+  Proof.
+    intros Hr. rewrite !rrun_app. unfold rrun at 1. cbn [fold_left]. fold (rrun H Hd decode root digests).
+    now rewrite (rejected_is_noop_l _ _ Hr).
+  Qed.
+
+  (* Finalize with another root than the checkpoint's fails *)
+  Theorem finalize_root_mismatch_l r s : r <> root -> rfinalize root r s = None.
+  Proof. intros Hn. unfold rfinalize. destruct (bytes_eqb r root) eqn:E; [apply bytes_eqb_eq in E; congruence|reflexivity]. Qed.
+End Rejected.
+
+Section Altered.
+  Variable H Hd : bytes -> bytes.
+  Variable decode : bytes -> option ptree.
+
+  (* a chunk file whose bytes differ from the created ones is refused by the
+     digest check, before anything is decoded, verified or written -- unless
+     the digest function collides on the two files *)
+  Theorem altered_chunk_rejected_l root good b st :
+    b <> good ->
+    restore_chunk H Hd decode root (Hd good) b st = (RCorrupted, st) \/ collision Hd.
+  Proof.
+    intros Hne. destruct (bytes_eq_dec (Hd b) (Hd good)) as [E|E].
+    - right. exists b, good. auto.
+    - left. now apply wrong_digest_rejected.
+  Qed.
+End Altered.
